@@ -42,6 +42,10 @@ class _Centroid:
         """Merge two centroids into one."""
         total = self.count + other.count
         new_mean = (self.mean * self.count + other.mean * other.count) / total
+        # Float rounding can push the weighted mean an ulp outside [self.mean, other.mean]
+        # (e.g. for two equal means); keep it between the merged means.
+        lo, hi = (self.mean, other.mean) if self.mean <= other.mean else (other.mean, self.mean)
+        new_mean = min(max(new_mean, lo), hi)
         return _Centroid(mean=new_mean, count=total)
 
 
